@@ -910,8 +910,20 @@ func (e *Env) evalCall(n ECall) tv {
 		x := e.eval(n.Args[0])
 		var alts []Term
 		consider := func(v Value, t types.Type) {
-			// only operands whose static type is the static type of x can denote x (no cross-type aliasing)
-			if t == nil || x.t == nil || !types.Identical(t, x.t) {
+			// only operands whose static type is the static type of x can denote x (no cross-type aliasing),
+			// unless the operand is literally the same symbolic value (x converted to another interface)
+			same := false
+			switch a := x.v.(type) {
+			case If:
+				if b, ok := v.(If); ok {
+					same = a.Typ.S == b.Typ.S && a.Val.S == b.Val.S
+				}
+			case Sc:
+				if b, ok := v.(Sc); ok {
+					same = a.T.S == b.T.S && a.T.Sort == SInt
+				}
+			}
+			if !same && (t == nil || x.t == nil || !types.Identical(t, x.t)) {
 				return
 			}
 			switch a := x.v.(type) {
